@@ -5,12 +5,13 @@
 //
 //   case <id>                      -> "case <id>"      (flushes a pending history first)
 //   cfg <fn> <key> <err>           -> "ok" | "bad-op"
-//        fn : inc | acc | addkey | echo1 | echo2 | echo3 | even | neg | negecho | addb | pair | nest
+//        fn : inc | acc | addkey | echo1 | echo2 | echo3 | echov | even | neg | negecho | addb | pair | nest
 //             inc     stateless           out = v + 1
 //             acc     stateful            out = running sum of the ticks
 //             addkey  key-consuming       out = v + 1000 * key                       (needs key = 1)
 //             echoK   self-scheduling     on a tick: out = v, and K steps later out = v + 100 (tagged
 //                                         NodeScheduler event; a newer tick replaces the pending one)
+//             echov   self-scheduling     as echoK with K = 1 + (v mod 3): a newer tick can move the wake-up earlier
 //             even    sometimes invalid   out = v only when v is even
 //             neg     throwing            throws on v < 0, else out = running sum
 //             negecho throwing + self-scheduling in ONE child: thrower node ranked before an echo2 node
@@ -115,6 +116,23 @@ namespace
         }
     };
 
+    // self-scheduling with a value-dependent delay (1..3 steps): a newer tick can move the pending wake-up EARLIER
+    struct HEchoV
+    {
+        static constexpr auto name = "hgv_echov";
+        static void start(State<Int> echo) { echo.set(Int{0}); }
+        static void eval(In<"ts", TS<Int>> ts, NodeScheduler sched, State<Int> echo, Out<TS<Int>> out)
+        {
+            if (ts.modified())
+            {
+                out.set(ts.value());
+                echo.set(ts.value() + Int{100});
+                sched.schedule(TimeDelta{1 + ((ts.value() % 3) + 3) % 3}, std::optional<std::string>{"e"});
+            }
+            else { out.set(echo.get()); }
+        }
+    };
+
     struct HEven
     {
         static constexpr auto name = "hgv_even";
@@ -196,7 +214,7 @@ namespace
     struct G1
     {
         static constexpr const char *names[] = {"hgv_g_inc", "hgv_g_acc", "hgv_g_echo1", "hgv_g_echo2", "hgv_g_echo3",
-                                                "hgv_g_even", "hgv_g_neg"};
+                                                "hgv_g_even", "hgv_g_neg", "hgv_g_echov"};
         static constexpr const char *name = names[Id];
         static P compose(Wiring &w, P ts) { return wire<Node>(w, ts); }
     };
@@ -205,7 +223,7 @@ namespace
     struct G1K
     {
         static constexpr const char *names[] = {"hgv_k_inc", "hgv_k_acc", "hgv_k_echo1", "hgv_k_echo2", "hgv_k_echo3",
-                                                "hgv_k_even", "hgv_k_neg"};
+                                                "hgv_k_even", "hgv_k_neg", "hgv_k_echov"};
         static constexpr const char *name = names[Id];
         static P compose(Wiring &w, KP key, P ts)
         {
@@ -311,7 +329,7 @@ namespace
 
     bool fn_known(const std::string &f)
     {
-        static const std::set<std::string> k{"inc", "acc", "addkey", "echo1", "echo2", "echo3", "even", "neg", "negecho", "addb", "pair", "nest"};
+        static const std::set<std::string> k{"inc", "acc", "addkey", "echo1", "echo2", "echo3", "echov", "even", "neg", "negecho", "addb", "pair", "nest"};
         return k.count(f) > 0;
     }
 
@@ -539,6 +557,7 @@ namespace
                             : cfg.fn == "echo1"   ? unary<HEcho<1>, 2>(cfg.key)
                             : cfg.fn == "echo2"   ? unary<HEcho<2>, 3>(cfg.key)
                             : cfg.fn == "echo3"   ? unary<HEcho<3>, 4>(cfg.key)
+                            : cfg.fn == "echov"   ? unary<HEchoV, 7>(cfg.key)
                             : cfg.fn == "even"    ? unary<HEven, 5>(cfg.key)
                             : cfg.fn == "neg"     ? unary<HNeg, 6>(cfg.key)
                             : cfg.fn == "negecho" ? (cfg.key ? fn<GNegEchoK>() : fn<GNegEcho>())
@@ -671,7 +690,8 @@ int main()
         try
         {
             if (cfg_bad) { throw std::invalid_argument("cfg"); }
-            lines = run_history(cfg, cycles);
+            if (cycles.empty()) { lines = {"end ev=-"}; }   // nothing to run
+            else { lines = run_history(cfg, cycles); }
         }
         catch (const OperatorResolutionError &) { lines.assign(cycles.size() + 1, "err:resolution"); }
         catch (const std::invalid_argument &e)
